@@ -12,9 +12,10 @@ class C09(Prop):
     def suites(self, tier, rng):
         n = 250 if tier == "quick" else 4000
         return [Suite("log", loggen.HEADER, [loggen.gen_case(rng) for _ in range(n)]),
-                # the MmapLog Multi channel above the topic (oracle only): an old / new pair of executors created after some events were sent -
-                # the old stream gets exactly those, the new one exactly the later ones; and 1-2 listeners polled under the scheduler
-                Suite("log_channel_old_new(oracle only)", "", [execgen.gen_logcase(rng) for _ in range(n // 4)], compare=False),
+                # the MmapLog Multi channel above the topic: an old / new pair of executors created after some events were sent - the old
+                # stream gets exactly those, the new one exactly the later ones (oracle + field-by-field comparison with MExec.v);
+                # and 1-2 listeners polled under the scheduler (oracle only)
+                Suite("log_channel_old_new", execgen.HEADER, [execgen.gen_logcase(rng) for _ in range(n // 4)]),
                 Suite("log_channel_listeners(oracle only)", "", [multigen.gen_fixed(rng, "mmap_log") for _ in range(n // 5)], compare=False)]
     def oracle(self, case, recs):
         if case.meta.get("profile") == "mlog": return execgen.oracle_mlog(case, recs)
